@@ -46,6 +46,6 @@ for d in sorted(glob.glob(os.path.join(ROOT, "seeded", "*"))):
         hist = "; ".join(seen)
     clean = lambda s: (s or "").replace("|", "/").replace("\n", " ")
     out.append("| %s | %s | %s | %s%s |" % (os.path.basename(d), clean(am.get("summary"))[:400], clean(am.get("needs_to_manifest"))[:300],
-                                           "; ".join(res), (" — " + hist) if hist else ""))
+                                           "; ".join(res), ((" — " + hist) if hist else "") + ((" — NOTE: " + clean(m.get("note"))) if m.get("note") else "")))
 open(os.path.join(ROOT, "docs", "SEEDED.md"), "w").write("\n".join(out) + "\n")
 print("docs/SEEDED.md: %d seeds" % (len(out) - 8))
